@@ -24,6 +24,7 @@ func C18(ctx *Ctx) {
 	R.Exhaustive = true
 	checkSelfBound(ctx)
 	ta := newTaint(ctx)
+	checkInitClosures(ctx, ta)
 	funcs := ctx.Prog.AllFuncs()
 	R.Count("functions", len(funcs))
 	R.Floor("functions", 300)
@@ -233,4 +234,84 @@ func followReturns(ta *taintAnalysis, ix *callSiteIndex, fn *ssa.Function, seeds
 		}
 	}
 	return out
+}
+
+// checkInitClosures: a closure made while a package is initialised and kept (stored in a package-level variable,
+// returned from an immediately invoked function, ...) lives as long as the program; the variables it captured are
+// then package-level state in disguise. Such a closure must not write through what it captured.
+func checkInitClosures(ctx *Ctx, ta *taintAnalysis) {
+	R := ctx.R
+	initCode := map[*ssa.Function]bool{}
+	var work []*ssa.Function
+	for _, fn := range ctx.Prog.AllFuncs() {
+		if isInitFunc(fn) {
+			initCode[fn] = true
+			work = append(work, fn)
+		}
+	}
+	var kept []*ssa.Function
+	for len(work) > 0 {
+		fn := work[len(work)-1]
+		work = work[:len(work)-1]
+		for _, b := range fn.Blocks {
+			for _, in := range b.Instrs {
+				if c, isCall := in.(*ssa.Call); isCall {
+					// an immediately invoked function literal without captured variables is called directly
+					if g := c.Call.StaticCallee(); g != nil && g.Parent() != nil && initCode[g.Parent()] && !initCode[g] {
+						initCode[g] = true
+						work = append(work, g)
+					}
+				}
+				mc, ok := in.(*ssa.MakeClosure)
+				if !ok {
+					continue
+				}
+				g, ok := mc.Fn.(*ssa.Function)
+				if !ok {
+					continue
+				}
+				onlyCalled := true
+				for _, r := range *mc.Referrers() {
+					switch x := r.(type) {
+					case *ssa.DebugRef:
+					case *ssa.Call:
+						if x.Call.Value != ssa.Value(mc) {
+							onlyCalled = false
+						}
+					default:
+						onlyCalled = false
+					}
+				}
+				if onlyCalled {
+					if !initCode[g] {
+						initCode[g] = true
+						work = append(work, g)
+					}
+				} else {
+					kept = append(kept, g)
+				}
+			}
+		}
+	}
+	R.Count("closures-kept-from-initialisation", len(kept))
+	bad := 0
+	for _, g := range kept {
+		var seeds []ssa.Value
+		for _, fv := range g.FreeVars {
+			seeds = append(seeds, fv)
+		}
+		if len(seeds) == 0 {
+			continue
+		}
+		for _, s := range ta.run(g, seeds) {
+			if s.Kind != sinkStore {
+				continue
+			}
+			bad++
+			R.Fail("globals", "closure-state:"+fnShort(g), ctx.Prog.Pos(s.Instr.Pos()), "a closure kept from package initialisation writes to a variable it captured ("+s.What+"): state shared by every caller")
+		}
+	}
+	if bad == 0 {
+		R.Pass("globals", "closure-state", "", fmt.Sprintf("%d closures kept from package initialisation, none writes through what it captured", len(kept)))
+	}
 }
